@@ -79,6 +79,12 @@ def histories():
     # damaged / foreign / missing archive: never a delete
     for how in ("delete", "empty", "truncate", "garbage", "version", "foreign"):
         H(S("A", "p", "1"), S("B", "p", "1"), S("A", "q", "1"), S("B", "q", "1"), RUN, S("A", "p", None), S("B", "q", "2"), {"archive": how}, RUN, RUN)
+    # a .bak generation exists (two runs) when the main archive is lost: it must not be trusted
+    H(S("A", "keep", "k"), S("B", "keep", "k"), S("A", "rep", "r"), RUN, S("B", "rep", None), RUN, S("A", "rep", "r"), {"archive": "delete"}, RUN)
+    H(S("A", "f", "v1"), S("B", "f", "v1"), RUN, S("A", "f", "v2"), RUN, S("B", "f", "v1"), {"archive": "delete"}, RUN)
+    # identical independent change on both sides (base must move to it), then one side reverts / the other deletes or diverges
+    H(S("A", "f", "v1"), S("B", "f", "v1"), RUN, S("A", "f", "v2"), S("B", "f", "v2"), RUN, S("A", "f", "v1"), S("B", "f", None), RUN)
+    H(S("A", "f", "v1"), S("B", "f", "v1"), RUN, S("A", "f", "v2"), S("B", "f", "v2"), RUN, S("A", "f", "v1"), S("B", "f", "v3"), RUN)
     # dry run, swapped roots
     H(S("A", "p", "1"), S("B", "q", "2"), {"run": "dry"}, RUN)
     H(S("A", "p", "1"), S("B", "p", "2"), {"swap": True}, RUN)
@@ -169,7 +175,7 @@ def rename_source_check(R, oid, key):
         for case in cases:
             ev, res = hubnative.strace_case(case, prof)
             for name, args, rc in ev:
-                if name == "write" and args.startswith("1<"):
+                if name == "write" and args.startswith("1<") and '"{\\"' in args:
                     break                     # the result line has been printed: what follows is the oracle's own clean-up
                 if "/bworld/" not in args:
                     continue
@@ -192,6 +198,36 @@ def rename_source_check(R, oid, key):
     return {"confirmed": False, "detail": "strace: every rename of an apply step moves a `.copia-tmp` staging file; no live path is unlinked"}
 
 
+def record_order_check(R, oid, key):
+    """real system calls of a run with deliveries AND mirrored deletes: once `<archive>.tmp` has been renamed over the
+    archive, no file under A/ or B/ may be renamed, unlinked or written any more (the record never runs ahead of the data)"""
+    import re
+    c = lambda s_: hx(s_.encode())
+    steps = [{"set": ["A", "keep", c("k")]}, {"set": ["B", "keep", c("k")]}, {"set": ["A", "g", c("g")]}, {"set": ["B", "g", c("g")]},
+             {"set": ["A", "h", c("h")]}, {"set": ["B", "h", c("h")]}, {"set": ["A", "m", c("m")]}, {"set": ["B", "m", c("m")]}, {"run": True},
+             {"set": ["A", "g", None]}, {"set": ["B", "h", None]}, {"set": ["A", "m", c("m2")]}, {"run": True}]
+    case = {"fn": "bisync_history", "steps": steps}
+    for prof in ("dev", "release"):
+        ev, res = hubnative.strace_case(case, prof)
+        saved = 0
+        for name, args, rc in ev:
+            if name == "write" and args.startswith("1<") and '"{\\"' in args:
+                break                     # the oracle's JSON result line: what follows is its own clean-up
+            if name in ("rename", "renameat", "renameat2"):
+                ps = re.findall(r'"([^"]*)"', args)
+                if len(ps) >= 2 and ps[0].endswith(".json.tmp") and ps[1].endswith(".json"):
+                    saved += 1
+                    continue
+            if saved >= 2 and "/hworld/" in args and re.search(r"/hworld/[AB]/", args) and name in ("rename", "renameat", "renameat2", "unlink", "unlinkat") and rc == "0":
+                cc = dict(case)
+                cc["observed"] = {prof: {"syscall": [name, args[:200], rc]}}
+                cc["deviation"] = "a data file is changed AFTER the new archive was renamed into place: %s(%s)" % (name, args[:120])
+                cc["strace"] = True
+                return {"confirmed": True, "replay_path": R.save_replay(oid, cc), "key": key,
+                        "detail": "real system calls of a bisync run (%s): the archive of the second run is on disk before %s(%s) - the record runs ahead of the data" % (prof, name, args.split("/hworld/")[-1][:80])}
+    return {"confirmed": False, "detail": "strace: nothing under A/ or B/ changes after the new archive is renamed into place"}
+
+
 def make_witness(R, pid, what):
     def w(name, model, neg):
         oid = "%s/%s" % (pid, what)
@@ -200,6 +236,10 @@ def make_witness(R, pid, what):
             return sync_order_check(R, oid, key)
         if what == "apply":
             r = rename_source_check(R, oid, key)
+            if r["confirmed"]:
+                return r
+        if what == "run" and "saved-only-after" in name:
+            r = record_order_check(R, oid, key)
             if r["confirmed"]:
                 return r
         extra = []
